@@ -27,9 +27,35 @@ Expressible(th, qf) ==
     \cup (IF th.uf THEN {"uninterpreted"} ELSE {}) \cup (IF th.ct THEN {"custom_sorts"} ELSE {})
     \cup (IF th.st THEN {"strings"} ELSE {}) \cup (IF ~qf THEN {"quantifiers"} ELSE {})
 
-\* the features the PROPERTY lists (difference-logic refinements are not among them)
+\* the features the PROPERTY lists, and - since fix 42 - arithmetic beyond difference logic: a formula "is never
+\* labelled with a logic that cannot express it", and x - y - z <= 3 cannot be expressed in QF_IDL
 ListedFeatures == {"arrays", "arrays_const", "bit_vectors", "integers", "reals", "nonlinear",
-                   "uninterpreted", "custom_sorts", "strings", "quantifiers"}
+                   "uninterpreted", "custom_sorts", "strings", "quantifiers",
+                   "int_beyond_difference", "real_beyond_difference"}
+
+\* linear form of an arithmetic term over its symbols (integer coefficients); ok = FALSE where the term has another shape
+LinAdd(m1, m2, k) == [n \in DOMAIN m1 \cup DOMAIN m2 |-> MapGet(m1, 0, n) + k * MapGet(m2, 0, n)]
+RECURSIVE LinOf(_)
+LinOf(t) ==
+    CASE t.op = "symbol" /\ t.ty.k \in {"Int", "Real"} -> [ok |-> TRUE, m |-> MapPut(EmptyMap, t.n, 1)]
+      [] t.op \in {"int_constant", "real_constant"} -> [ok |-> TRUE, m |-> EmptyMap]
+      [] t.op \in {"plus", "minus"} ->
+            LET ls == [j \in 1..Len(t.a) |-> LinOf(t.a[j])]
+                RECURSIVE Acc(_)
+                Acc(j) == IF j = 1 THEN ls[1].m ELSE LinAdd(Acc(j - 1), ls[j].m, IF t.op = "plus" THEN 1 ELSE -1)
+            IN  [ok |-> \A j \in 1..Len(ls) : ls[j].ok, m |-> IF \A j \in 1..Len(ls) : ls[j].ok THEN Acc(Len(ls)) ELSE EmptyMap]
+      [] t.op = "times" /\ Len(t.a) = 2 /\ t.a[1].op = "int_constant" ->
+            LET l == LinOf(t.a[2]) IN [ok |-> l.ok, m |-> LinAdd(EmptyMap, l.m, t.a[1].i[1])]
+      [] t.op = "times" /\ Len(t.a) = 2 /\ t.a[2].op = "int_constant" ->
+            LET l == LinOf(t.a[1]) IN [ok |-> l.ok, m |-> LinAdd(EmptyMap, l.m, t.a[2].i[1])]
+      [] OTHER -> [ok |-> FALSE, m |-> EmptyMap]
+\* an atom l ~ r that is DEFINITELY not a difference constraint: more than two symbols, or two whose coefficients are not k / -k
+BeyondDifference(l, r) ==
+    LET a == LinOf(l) b == LinOf(r)
+        m == LinAdd(a.m, b.m, -1)
+        vs == {n \in DOMAIN m : m[n] # 0}
+        Sum2 == LET p == CHOOSE p \in vs : TRUE q == CHOOSE q \in vs \ {p} : TRUE IN m[p] + m[q]
+    IN  a.ok /\ b.ok /\ (Cardinality(vs) > 2 \/ (Cardinality(vs) = 2 /\ Sum2 # 0))       \* k*x - k*y ~ c is a difference constraint
 
 \* ------------------------------------------------------------- features of a formula
 RECURSIVE SortFeatures(_)
@@ -65,6 +91,9 @@ Features(t) ==
                         IF HasFreeSym(t.a[2]) \/ (t.a[2].op \in {"int_constant", "real_constant"} /\ t.a[2].i[1] = 0)
                         THEN {"nonlinear"} ELSE {}
                  [] t.op = "pow" -> IF HasFreeSym(t.a[1]) THEN {"nonlinear"} ELSE {}
+                 [] t.op \in {"le", "lt", "equals"} /\ TyF(t.a[1]).k \in {"Int", "Real"} ->
+                        IF BeyondDifference(t.a[1], t.a[2])
+                        THEN {IF TyF(t.a[1]).k = "Int" THEN "int_beyond_difference" ELSE "real_beyond_difference"} ELSE {}
                  [] OTHER -> {}
     IN  own \cup subs
 
